@@ -70,11 +70,21 @@ func layoutDirs(layout string, ts []string) map[string]string {
 			} else {
 				dirs[t] = dirs[ts[k-1]] + "/" + []string{"test", "include", "main", "src", "gen"}[k%5]
 			}
+		case "nested-reverse":
+			// the LATER target's root is the parent, earlier targets write below it
+			// under names build tools give meaning to; filled in after the loop
 		case "prefix-siblings":
 			// names that are string prefixes of one another, longer on the earlier target
 			dirs[t] = "gen" + strings.Repeat("_x", len(ts)-1-k)
 		default:
 			dirs[t] = targetDir[t]
+		}
+	}
+	if layout == "nested-reverse" {
+		conv := []string{"src/main", "rust", "src/test", "target/generated", "build", "include", "test", "main/java", "pkg"}
+		dirs[ts[len(ts)-1]] = "proj"
+		for k := len(ts) - 2; k >= 0; k-- {
+			dirs[ts[k]] = dirs[ts[k+1]] + "/" + conv[(len(ts)-2-k)%len(conv)]
 		}
 	}
 	return dirs
@@ -293,7 +303,10 @@ func c13CLI(c *Ctx, n int) error {
 		}{"disk0-stale-output", func(s *SchedConfig) {}}, struct {
 			name string
 			f    func(*SchedConfig)
-		}{"env-vary", func(s *SchedConfig) { s.EnvMode = "vary" }})
+		}{"env-vary", func(s *SchedConfig) { s.EnvMode = "vary" }}, struct {
+			name string
+			f    func(*SchedConfig)
+		}{"stdout-devfull", func(s *SchedConfig) {}})
 		for k, cf := range cfgs {
 			cfg := s0()
 			cfg.Seed = SubSeed(seed, cf.name, k)
@@ -302,6 +315,11 @@ func c13CLI(c *Ctx, n int) error {
 			if cf.name == "disk0-stale-output" {
 				wi.Disk0 = staleDisk(text, o0)
 				c.ev.Fire("disk0_stale_files", 1)
+			}
+			if cf.name == "stdout-devfull" {
+				// the same command with a standard output on which every write fails
+				wi.StdoutKind = "devfull"
+				c.ev.Fire("stdout_write_error_ENOSPC", 1)
 			}
 			if cf.name == "env-vary" {
 				// same DSL, same flags, another user's shell on another day: the
